@@ -14,6 +14,9 @@ SHAPES = {
     'two-bases': [('B', []), ('C', []), ('D', ['B', 'C'])],
     'two-bases-with-parents': [('A', []), ('B', ['A']), ('E', []), ('C', ['E']), ('D', ['B', 'C'])],
     'object-base': [('A', ['object']), ('D', ['A'])],
+    # a runtime class among the bases, after and before a source base
+    'runtime-base-after-a-source-base': [('A', []), ('B', ['A']), ('D', ['B', 'Exception'])],
+    'runtime-base-before-a-source-base': [('A', []), ('D', ['Exception', 'A'])],
 }
 
 
@@ -61,7 +64,7 @@ print('REPRODUCED: %(why)s')
 
 
 @harness(['C06'], 'supp.assistant.assist / location on obj.attr and self.attr [generated class hierarchies executed under CPython]',
-         bounded='4 hierarchy shapes (chain of 3, two bases, two bases with a parent each, explicit object base) x every subset of classes overriding '
+         bounded='6 hierarchy shapes (chain of 3, two bases, two bases with a parent each, explicit object base, a runtime class after and before a source base) x every subset of classes overriding '
                  '`shared` (as method, class attribute, property) x every subset of classes assigning self.inst_x in a method; receivers obj = D() '
                  'and self inside a method of D')
 def hierarchies(run):
@@ -86,7 +89,7 @@ def hierarchies(run):
                                 text = '\n'.join(lines) + '\n'
                                 ns = {}
                                 exec(compile(text, '<c06>', 'exec'), ns)
-                                mro = [c.__name__ for c in ns['D'].__mro__ if c is not object]
+                                mro = [c.__name__ for c in ns['D'].__mro__ if c.__name__ in body_attr]          # (the source classes of the MRO)
                                 want_attrs = set()
                                 for c in mro:
                                     want_attrs |= set(body_attr[c])
@@ -422,6 +425,7 @@ def dotted_imports(run):
 
 
 DECORATED = '''import functools
+import os
 
 
 def passthrough(fn):
@@ -467,6 +471,17 @@ class Middle(Root):
     def run(self):
         self.state = 1
 
+    def unpack(self, pair):
+        self.host, self.port = pair
+        [self.low, self.high] = pair
+        self.head, (self.mid, self.tail) = 0, pair
+        self.first, *self.others = pair
+        self.chained = self.chained_too = pair
+        for self.loop_var in pair:
+            pass
+        with open(os.devnull) as self.handle:
+            pass
+
     @property
     def lazy(self):
         self.lazy_value = 2
@@ -485,18 +500,121 @@ class Leaf(Middle):
 '''
 # how the oracle drives the object so that every assignment through self has run
 DRIVE = '''obj = Leaf()
-obj.configure(); obj.table; obj.table = 5; obj.wrapped(); made = Leaf.make(); obj.run(); obj.lazy; obj.cached(); obj()
+obj.configure(); obj.table; obj.table = 5; obj.wrapped(); made = Leaf.make(); obj.run(); obj.unpack((1, 2)); obj.lazy; obj.cached(); obj()
 with obj: pass
 '''
 DECORATED_RECEIVERS = [('obj = Leaf()\nobj.', 'instance'), ('Leaf.', 'class'),
                        ('class Sub(Leaf):\n    def probe(self):\n        return self.', 'self in a method of a subclass')]
-# (the value of `cls()` inside a classmethod and of a name bound by `with ... as` are not among the values supp determines; an attribute
+# (the value of a name bound by `with ... as` is not among the values supp determines; an attribute
 #  assigned through `cls` is not one "assigned through self": the statement does not demand them)
+
+
+FLUENT_PROGRAM = '''class P_:
+    def configure(self):
+        self.configured = 1
+        return self
+
+
+class C_(P_):
+    own = 2
+
+    def extra(self):
+        self.more = 3
+
+
+obj = C_().configure()
+'''
+
+
+@harness(['C06'], 'supp.assistant.assist on the value of a method that returns self [called on an instance of a subclass, under CPython]',
+         bounded='1 hierarchy of 2 classes; the method is defined in the base and returns self; receivers: an instance of the subclass, an instance of the base')
+def method_returning_self(run):
+    """BOUNDED: the value of `C_().configure()`, a call of a single-return function, is under CPython the receiver itself - an instance of
+    the subclass: proposals include every source-defined attribute found on it.  Not counted as proved."""
+    import supp.assistant as A
+    import supp.project as Pj
+
+    def go(path):
+        ns = {}
+        exec(compile(FLUENT_PROGRAM, '<c06>', 'exec'), ns)
+        obj = ns['obj']
+        found = {n for k in type(obj).__mro__ if k is not object for n in vars(k) if not n.startswith('__')} | set(vars(obj))
+        prove('under-cpython-the-call-returns-the-receiver', type(obj).__name__ == 'C_' and found == {'configure', 'configured', 'own', 'extra'}, kind='lemma', path=path)
+        for label, recv, want in (('on-an-instance-of-the-subclass', 'C_().configure().', found), ('on-an-instance-of-the-defining-class', 'P_().configure().', {'configure', 'configured'})):
+            src = FLUENT_PROGRAM + recv
+            pos = (len(src.split('\n')), len(recv))
+            got = set(A.assist(Pj.Project(['/nonexistent']), src, pos, '<c06>')[1])
+            missing = sorted(want - got)
+            script = ('import sys; sys.path.insert(0, %r)\nfrom supp.assistant import assist\nfrom supp.project import Project\ntext = %r\nprint(text)\n'
+                      'got = assist(Project(["/nonexistent"]), text, %r, "<c06>")[1]\nprint("proposed:", got)\nmissing = sorted(set(%r) - set(got))\n'
+                      'print("REPRODUCED: CPython finds %%r on the object the call returns, they are not proposed" %% (missing,) if missing else "not reproduced")\n'
+                      ) % (core.REPO, src, pos, sorted(want))
+            core.RUN.concretise = lambda model, ob, src=src, script=script: {'input': src, 'script': script}
+            prove('method-returning-self-%s:proposals-include-what-cpython-finds' % label, not missing,
+                  clause='`%s` proposes %r; on the real object CPython also finds %r' % (recv, sorted(got), missing), path=path)
+            core.RUN.concretise = None
+    core.explore(lambda: None, lambda p, out: go(p))
+
+
+CLS_PROGRAM = '''class K_:
+    both = 1
+    only_class = 2
+
+    def method(self):
+        self.both = 3
+        self.inst = 4
+
+    @classmethod
+    def make(cls):
+        probe = cls.both
+        return cls()
+
+
+made = K_.make()
+made.method()
+'''
+
+
+@harness(['C06'], 'supp.scope.FuncScope.get_argument + supp.assistant.location / assist [cls in a classmethod, under CPython]',
+         bounded='1 class with an attribute defined in the class body and assigned through self, read through cls in a classmethod; the value of cls()')
+def cls_in_a_classmethod(run):
+    """BOUNDED: `cls` inside a classmethod is the class: go-to-definition on cls.attr lands on the class-body definition (Python's lookup on a
+    class never sees what an instance has of its own), and the instance `cls()` makes has the attributes CPython finds on it.  Not counted as
+    proved."""
+    import supp.assistant as A
+    import supp.project as Pj
+
+    def go(path):
+        ns = {}
+        exec(compile(CLS_PROGRAM, '<c06>', 'exec'), ns)
+        K, made = ns['K_'], ns['made']
+        prove('under-cpython-the-class-holds-the-class-body-value', K.both == 1 and made.both == 3 and vars(made) == {'both': 3, 'inst': 4}, kind='lemma', path=path)
+        lines = CLS_PROGRAM.split('\n')
+        ln = [i for i, l in enumerate(lines) if 'probe = cls.both' in l][0] + 1
+        pos = (ln, lines[ln - 1].index('cls.both') + len('cls.both'))
+        got = A.location(Pj.Project(['/nonexistent']), CLS_PROGRAM, pos, '<c06>')
+        first = got[0] if got else None
+        first = first[0] if isinstance(first, list) and first else first
+        want = (2, 4)
+        script = ('import sys; sys.path.insert(0, %r)\nfrom supp.assistant import location, assist\nfrom supp.project import Project\ntext = %r\nprint(text)\n'
+                  'g = location(Project(["/nonexistent"]), text, %r, "<c06>")\nprint("go-to-definition on cls.both:", g)\n'
+                  'f = g[0] if g else None\nf = f[0] if isinstance(f, list) and f else f\n'
+                  'print("REPRODUCED: cls.both in a classmethod does not land on the class-body definition at (2, 4)" if not f or tuple(f["loc"]) != (2, 4) else "not reproduced")\n'
+                  ) % (core.REPO, CLS_PROGRAM, pos)
+        core.RUN.concretise = lambda model, ob: {'input': CLS_PROGRAM, 'script': script}
+        prove('cls.attr-lands-on-the-class-body-definition', bool(first) and tuple(first['loc']) == want,
+              clause='go-to-definition on cls.both inside the classmethod gives %r, Python\'s lookup on the class selects the definition at %r' % (got, want), path=path)
+        core.RUN.concretise = None
+        src = CLS_PROGRAM + 'made.'
+        names = set(A.assist(Pj.Project(['/nonexistent']), src, (len(src.split('\n')), 5), '<c06>')[1])
+        prove('the-instance-cls()-makes-has-its-attributes', {'both', 'inst', 'only_class', 'method', 'make'} <= names,
+              clause='proposals for the value of K_.make() (which returns cls()): %r' % (sorted(names),), path=path)
+    core.explore(lambda: None, lambda p, out: go(p))
 
 
 @harness(['C06'], 'supp.assistant.assist on obj.attr [self-assignments in property getters / setters, decorated and special methods, under CPython]',
          bounded='1 hierarchy of 3 classes whose attributes are assigned through self in a plain method, a property getter, a property setter, a method '
-                 'wrapped by a source decorator, one wrapped by functools.lru_cache, __enter__, __call__, and through cls in a classmethod; receivers: '
+                 'wrapped by a source decorator, one wrapped by functools.lru_cache, __enter__, __call__, through tuple / list / nested / starred / chained targets and for / with targets, and through cls in a classmethod; receivers: '
                  'an instance, the class, self in a method of a further subclass')
 def decorated_methods(run):
     """BOUNDED: proposals include every source-defined attribute CPython finds on the real object after every method ran (vars(obj), class-body
